@@ -164,6 +164,108 @@ static void Compare(const DynNode& b, const DynNode& f, const DynNode& marker, P
 
 // Container leg: an array of numbers with offending elements loaded into a std::vector (the library's own container loader with
 // its estimated-size pre-sizing), arrays longer than the estimate included; reference = position-wise expectation.
+// Fixed-shape leg: the library's own loaders for std::tuple, std::array and a vector of tuples. One element of the document is a
+// definite offence (a text where a number or bool is expected, a number where a text is expected); with the Skip policy every
+// other element, and the member that follows, must load as without the offence, and the offended element keeps its value.
+static Outcome ShapesLeg(RunCtx& ctx, int archive)
+{
+	Source& s = ctx.src;
+	ArchiveOps& ops = GetOps(archive);
+	const std::string an = ArchiveName(archive);
+	SerializationOptions o = GenLoadOptions(s, sim::L_CFG, archive);
+	o.mismatchedTypesPolicy = BitSerializer::MismatchedTypesPolicy::Skip;
+	o.overflowNumberPolicy = BitSerializer::OverflowNumberPolicy::Skip;
+	Outcome out;
+	out.cfgKey = an + "|shapes";
+	ctx.count("leg.shapes");
+	// the document, as a dynamic tree
+	auto I32 = [&](int32_t v) { DynNode n(K::I32); n.i32 = v; return n; };
+	auto I64 = [&](int64_t v) { DynNode n(K::I64); n.i64 = v; return n; };
+	auto Str = [&](const std::string& v) { DynNode n(K::Str); n.s = v; return n; };
+	auto Bool = [&](bool v) { DynNode n(K::Bool); n.b = v; return n; };
+	auto key = [](const char* k) { Key x; x.s = k; return x; };
+	DynNode root(K::Obj);
+	DynNode tup(K::Arr), arr(K::Arr), vt(K::Arr);
+	const int32_t t0 = static_cast<int32_t>(GenSigned(s, sim::L_DOC, 32));
+	const std::string t1 = "t" + ToUtf8(GenText(s, sim::L_DOC, ProfileFor(archive), 20));
+	const bool t2 = s.chance(sim::L_DOC, 1, 2);
+	const int64_t t3 = GenSigned(s, sim::L_DOC, 64);
+	tup.items = { I32(t0), Str(t1), Bool(t2), I64(t3) };
+	int32_t a[4];
+	for (int i = 0; i < 4; ++i) { a[i] = static_cast<int32_t>(GenSigned(s, sim::L_DOC, 32)); arr.items.push_back(I32(a[i])); }
+	const uint32_t nvt = 1 + s.draw(sim::L_DOC, 4);
+	std::vector<std::pair<int32_t, std::string>> v;
+	for (uint32_t i = 0; i < nvt; ++i)
+	{
+		v.emplace_back(static_cast<int32_t>(GenSigned(s, sim::L_DOC, 32)), "v" + std::to_string(i));
+		DynNode item(K::Arr);
+		item.items = { I32(v.back().first), Str(v.back().second) };
+		vt.items.push_back(item);
+	}
+	root.keys = { key("tup"), key("arr"), key("vt"), key("tail") };
+	const int32_t tail = 1 + static_cast<int32_t>(s.draw(sim::L_DOC, 1000));
+	root.items = { tup, arr, vt, I32(tail) };
+	// the offence
+	const uint32_t where = s.draw(sim::L_FAULT, 3);     // 0 tuple, 1 array, 2 an item of the vector of tuples
+	uint32_t idx = 0;
+	std::string what;
+	if (where == 0) { idx = s.draw(sim::L_FAULT, 4); root.items[0].items[idx] = idx == 1 ? (archive == A_XML ? DynNode(K::Null) : I32(7)) : Str("x!"); what = "tup[" + std::to_string(idx) + "]"; }
+	else if (where == 1) { idx = s.draw(sim::L_FAULT, 4); root.items[1].items[idx] = Str("x!"); what = "arr[" + std::to_string(idx) + "]"; }
+	else { idx = s.draw(sim::L_FAULT, nvt); root.items[2].items[idx].items[0] = Str("x!"); what = "vt[" + std::to_string(idx) + "][0]"; }
+	const bool xmlStringOffence = archive == A_XML && where == 0 && idx == 1;   // XML: null in place of a text is "not loaded" as well
+	(void)xmlStringOffence;
+	std::string bytes;
+	CallResult sv = SaveDynWith(ops, root, bytes, o, OutCfg{});
+	if (!sv.ok) return out;
+	if (archive != A_MSGPACK && bytes.size() >= 3 && bytes.compare(0, 3, "\xEF\xBB\xBF") == 0) return out;
+	InCfg c;
+	if (s.chance(sim::L_IO, 1, 2)) { c = DrawStreamCfg(s, sim::L_IO); c.seekable = true; }
+	ctx.note("shapes leg: archive=" + an + " offence at " + what + " via " + c.str() + " options: " + OptStr(o));
+	Shapes sh;
+	sh.tup = std::make_tuple(0x55555555, std::string("\x01marker"), !t2, int64_t(0x5555555555555555ll));
+	sh.arr = { 0x55555555, 0x55555555, 0x55555555, 0x55555555 };
+	sh.vt.assign(1 + s.draw(sim::L_PROG, 4), std::make_tuple(0x55555555, std::string("\x01marker")));
+	sh.tail = 0x55555555;
+	ApplyKnobs(c);
+	CallResult r;
+	sim::steps_begin(3000ull * (bytes.size() + 4096));
+	if (!c.stream) r = Guarded([&] { ops.LoadShapes(sh, o, IoIn{ &bytes, nullptr }); });
+	else
+	{
+		sim::SimIStreamBuf sb(bytes, true, c.delivery, {});
+		std::istream is(&sb);
+		r = Guarded([&] { ops.LoadShapes(sh, o, IoIn{ nullptr, &is }); });
+	}
+	sim::steps_end();
+	ResetKnobs();
+	const std::string tags = "archive=" + an + " leg=shapes entry=" + (c.stream ? "stream:file" : "mem") + " offence=" + (where == 0 ? "tuple" : where == 1 ? "array" : "vector_of_tuples");
+	if (!r.isStd) return Violation("WRONG_EXCEPTION", tags, "non-std exception");
+	if (!r.ok) return Violation("WRONG_EXCEPTION", tags + " what=threw exc=" + r.cat, "with the Skip policies the load must not throw for " + what + ": " + r.cat + " (" + r.what + ")");
+	auto fail = [&](const std::string& w, const std::string& d) { return Violation("WRONG_VALUE", tags + " what=" + w, "offence at " + what + ": " + d); };
+	if (!sh.tailLoaded || sh.tail != tail) return fail("member_after", "the member after the containers was not loaded correctly (" + std::to_string(sh.tail) + ", expected " + std::to_string(tail) + ")");
+	const bool off0 = where == 0;
+	if (std::get<0>(sh.tup) != (off0 && idx == 0 ? 0x55555555 : t0)) return fail(off0 && idx == 0 ? "offended_changed" : "neighbour_value", "tup[0] = " + std::to_string(std::get<0>(sh.tup)));
+	if (std::get<1>(sh.tup) != (off0 && idx == 1 ? std::string("\x01marker") : t1)) return fail(off0 && idx == 1 ? "offended_changed" : "neighbour_value", "tup[1] = " + sim::hex(std::get<1>(sh.tup), 40));
+	if (std::get<2>(sh.tup) != (off0 && idx == 2 ? !t2 : t2)) return fail(off0 && idx == 2 ? "offended_changed" : "neighbour_value", "tup[2]");
+	if (std::get<3>(sh.tup) != (off0 && idx == 3 ? int64_t(0x5555555555555555ll) : t3)) return fail(off0 && idx == 3 ? "offended_changed" : "neighbour_value", "tup[3] = " + std::to_string(std::get<3>(sh.tup)));
+	for (uint32_t i = 0; i < 4; ++i)
+	{
+		const bool off = where == 1 && idx == i;
+		if (sh.arr[i] != (off ? 0x55555555 : a[i])) return fail(off ? "offended_changed" : "neighbour_value", "arr[" + std::to_string(i) + "] = " + std::to_string(sh.arr[i]));
+	}
+	if (sh.vt.size() != nvt) return fail("neighbour_count", "vt has " + std::to_string(sh.vt.size()) + " items, the document " + std::to_string(nvt));
+	for (uint32_t i = 0; i < nvt; ++i)
+	{
+		const bool off = where == 2 && idx == i;
+		// items of a sequence container are new values: the offended component is a default, not the marker
+		if (std::get<0>(sh.vt[i]) != (off ? 0 : v[i].first)) return fail(off ? "offended_changed" : "neighbour_value", "vt[" + std::to_string(i) + "][0] = " + std::to_string(std::get<0>(sh.vt[i])));
+		if (std::get<1>(sh.vt[i]) != v[i].second) return fail("neighbour_value", "vt[" + std::to_string(i) + "][1] = " + sim::hex(std::get<1>(sh.vt[i]), 40));
+	}
+	out.nontrivial = true;
+	sim::probe("fixed-shape-offence-skipped");
+	return out;
+}
+
 static Outcome ContainerLeg(RunCtx& ctx, int archive)
 {
 	Source& s = ctx.src;
@@ -244,6 +346,7 @@ Outcome RunC05(RunCtx& ctx)
 	Source& s = ctx.src;
 	const int archive = static_cast<int>(s.draw(sim::L_CFG, A_COUNT));
 	if (archive != A_CSV && s.chance(sim::L_CFG, 1, 8)) return ContainerLeg(ctx, archive);
+	if (archive != A_CSV && s.chance(sim::L_CFG, 1, 12)) return ShapesLeg(ctx, archive);
 	ArchiveOps& ops = GetOps(archive);
 	const std::string an = ArchiveName(archive);
 	GenCfg g;
